@@ -1,0 +1,21 @@
+/*******************************************************************************
+* Verification hooks (compiled only with -DCLIPPER2_VERIF; no effect otherwise) *
+* A test harness may install a thread-local callback that is invoked at a few   *
+* yield points (one per scanbeam / offset path / rect-clipped path).  Used to   *
+* replay model-checked thread schedules at hook granularity.                    *
+*******************************************************************************/
+#ifndef CLIPPER_VERIF_H
+#define CLIPPER_VERIF_H
+
+#ifdef CLIPPER2_VERIF
+namespace Clipper2Lib { namespace verif {
+  typedef void (*YieldFn)(int site);
+  inline thread_local YieldFn yield_fn = nullptr;
+  inline void Yield(int site) { if (yield_fn) yield_fn(site); }
+}}
+#define CLIPPER2_VERIF_YIELD(site) ::Clipper2Lib::verif::Yield(site)
+#else
+#define CLIPPER2_VERIF_YIELD(site) ((void)0)
+#endif
+
+#endif // CLIPPER_VERIF_H
